@@ -252,6 +252,12 @@ def run(ctx):
 
         lflow = PredFlow(load, csw, cbool)
         conf = lflow.at(reads[0].bb) == "P"
+        # the reader never waits: any state other than INITIALIZED means `no recorder yet` at once (an emission made by the
+        # installing thread itself while it holds the claim — an allocator that reports metrics — would wait for itself)
+        from props.common import in_cycle as _in_cycle
+
+        loops = [i for i in range(load.body.n) if _in_cycle(load.body, i) and not load.body.blocks[i].get("cleanup")]
+        chk.ob("C02.b", f"{load.path} [never waits]", not loops, "the lookup is loop-free: one load, one decision" if not loops else "the lookup loops (waits for another state): an emission that lands in the INITIALIZING window blocks instead of going to the no-op recorder", load.loc(), nontrivial=False)
         chk.ob("C02.b", f"{load.path} [read gated by INITIALIZED]", conf, f"UnsafeCell read reachable only when the loaded state == {inited}" if conf else f"the UnsafeCell read is not confined to state == INITIALIZED ({inited}): a half-installed recorder can be observed", reads[0].loc())
 
     # ---- C02.c hand-back
